@@ -54,6 +54,16 @@ Theorem C20_aggregate_err : forall l t,
   exists l1 l2, l = l1 ++ CErr t :: l2 /\ forallb (fun x => negb (is_err x)) l1 = true.
 Proof. exact use_keyspace_result_err. Qed.
 
+(* hence a successful call means: every node / connection answered Ok or "broken connection" *)
+Theorem C20_aggregate_ok_each : forall l,
+  use_keyspace_result l = AOk -> forall x, In x l -> x = COk \/ exists t, x = CBroken t.
+Proof. exact aggregate_ok_each. Qed.
+
+(* and a pool answers with another error exactly when one of the connections it covered did *)
+Theorem C20_pool_answer_err : forall r,
+  answer_of r = PAErr <-> exists c, In c (cov r) /\ is_err (outcome (stat r c)) = true.
+Proof. exact answer_of_err. Qed.
+
 (* the function's contract: it must not be called on an empty list *)
 Theorem C20_aggregate_panic : forall l, use_keyspace_result l = APanic <-> l = [].
 Proof. exact use_keyspace_result_panic. Qed.
@@ -223,6 +233,8 @@ Print Assumptions C20_verify_result.
 Print Assumptions C20_verify_honest.
 Print Assumptions C20_aggregate_ok.
 Print Assumptions C20_aggregate_err.
+Print Assumptions C20_aggregate_ok_each.
+Print Assumptions C20_pool_answer_err.
 Print Assumptions C20_aggregate_panic.
 Print Assumptions C20_inv.
 Print Assumptions C20_setup_first.
